@@ -1,5 +1,171 @@
-use crate::Ctx;
+//! C02 - the connection makes progress: every call returns, chunks get through, deadlines are finite.
+//!
+//! Generator: adversarial prefix (C01's histories, chunk sizes over the whole accepted range) followed
+//! by a fair suffix executed by the harness. Oracles: per-call fuel on every callback (termination),
+//! finite deadline while anything is pending, bounded liveness under the fair scheduler.
 
-pub fn run(_ctx: &Ctx) {
-    // not built yet
+use crate::netsim::*;
+use crate::{Ctx, Outcome, PResult};
+use proptest::prelude::*;
+use serde::{Deserialize, Serialize};
+
+pub const ORACLES: [&str; 3] = ["termination", "deadline", "liveness"];
+pub const FAIR_ROUNDS: usize = 40;
+
+#[derive(Clone, Debug, Hash, Serialize, Deserialize)]
+pub struct Case {
+    pub ops: Vec<Op>,
+}
+
+fn fail<T>(oracle: &'static str, msg: String) -> Result<T, Failure> {
+    Err(Failure { oracle, msg })
+}
+
+/// (2) while anything is unsent, unacknowledged or mid-handshake the reported deadline is finite.
+pub fn deadline_check<P: Proto>(sim: &Sim<P>) -> StepResult {
+    for side in 0..2 {
+        let (state, unacked, queued, rr) = P::summary(&sim.ends[side]);
+        let mid_handshake = if P::IS7 {
+            matches!(state, "Token" | "Connecting" | "Pending")
+        } else {
+            matches!(state, "Connecting" | "Pending")
+        };
+        let pending = mid_handshake || (state == "Online" && (unacked > 0 || queued > 0 || rr));
+        if pending && !P::needs_tick(&sim.ends[side]).is_active() {
+            return fail(
+                "deadline",
+                format!(
+                    "{}: side {} is {} with {} unacknowledged / {} queued chunks (resend requested: {}) but needs_tick() reports no deadline",
+                    P::NAME, side, state, unacked, queued, rr
+                ),
+            );
+        }
+    }
+    Ok(())
+}
+
+fn run_case<P: Proto>(ops: &[Op], strip: bool, max_len: usize) -> PResult {
+    let mut sim: Sim<P> = Sim::new(0xC02, strip);
+    sim.max_len = max_len;
+    let mut aborted = false;
+    for (i, op) in ops.iter().enumerate() {
+        let r = sim.step(op).and_then(|()| deadline_check(&sim));
+        if let Err(f) = r {
+            if ORACLES.contains(&f.oracle) {
+                return Err(format!("op #{} {:?}: [{}] {}", i, op, f.oracle, f.msg));
+            }
+            aborted = true;
+            break;
+        }
+    }
+    let mut rounds = None;
+    let mut pending_before = 0;
+    let needed_retransmit = sim.stats.faults_on_vital > 0 || sim.stats.handshake_lost > 0;
+    let mut had_max = false;
+    if !aborted && sim.alive() {
+        for s in 0..2 {
+            pending_before += P::summary(&sim.ends[s]).1;
+            had_max |= sim.submitted_vital[s][sim.delivered_vital[s]..].iter().any(|c| c.len() >= max_len.saturating_sub(2));
+        }
+        let before = sim.stats.clone();
+        match sim.fair_suffix(FAIR_ROUNDS) {
+            Ok(Some(r)) => rounds = Some(r),
+            Ok(None) => {
+                let mut detail = String::new();
+                for s in 0..2 {
+                    let (st, un, q, rr) = P::summary(&sim.ends[s]);
+                    detail.push_str(&format!(
+                        " side{}: {} unacked={} queued={} rr={} delivered_to_peer={}/{} deadline={:?};",
+                        s, st, un, q, rr, sim.delivered_vital[s], sim.submitted_vital[s].len(),
+                        P::needs_tick(&sim.ends[s]).to_opt().map(|t| t.as_usecs_since_epoch())
+                    ));
+                }
+                return Err(format!(
+                    "[liveness] {}: not quiescent after {} fair rounds (ready_seen={}, now={}us):{}",
+                    P::NAME, FAIR_ROUNDS, sim.ready_seen, sim.now_us, detail
+                ));
+            }
+            Err(f) => {
+                if ORACLES.contains(&f.oracle) || f.oracle == "vital_prefix" {
+                    return Err(format!("fair suffix: [{}] {}", f.oracle, f.msg));
+                }
+                aborted = true;
+            }
+        }
+        let _ = before;
+        if !aborted {
+            deadline_check(&sim).map_err(|f| format!("after fair suffix: [{}] {}", f.oracle, f.msg))?;
+        }
+    }
+    Ok(Outcome::nt(rounds.is_some() && needed_retransmit)
+        .class_if(rounds.is_some(), "fair_suffix_ran")
+        .class_if(rounds.map(|r| r >= 4).unwrap_or(false), "four_plus_rounds")
+        .class_if(rounds.map(|r| r >= 10).unwrap_or(false), "ten_plus_rounds")
+        .class_if(pending_before > 0, "unacked_at_suffix_start")
+        .class_if(pending_before >= 20, "twenty_plus_unacked_at_suffix_start")
+        .class_if(had_max, "largest_size_chunk_pending")
+        .class_if(sim.stats.handshake_lost > 0, "handshake_datagram_faulted")
+        .class_if(sim.stats.wrapped, "sequence_wrapped")
+        .class_if(!sim.alive(), "session_not_alive_at_end")
+        .class_if(aborted, "aborted_by_other_oracle"))
+}
+
+fn check(v: Variant, c: &Case, max_len: usize) -> PResult {
+    match v {
+        Variant::V6Token => run_case::<P6>(&c.ops, false, max_len),
+        Variant::V6NoToken => run_case::<P6>(&c.ops, true, max_len),
+        Variant::V7 => run_case::<P7>(&c.ops, false, max_len),
+    }
+}
+
+/// Largest chunk length generated per variant: the largest the layer accepts.
+pub fn max_len_for(v: Variant, ctx: &Ctx) -> usize {
+    match v {
+        Variant::V7 => {
+            if ctx.known_open("v7-resend-spin-largest-chunk") {
+                ctx.add_excluded_known(3);
+                1387
+            } else {
+                1390
+            }
+        }
+        _ => 1023,
+    }
+}
+
+pub fn run_all(ctx: &Ctx) {
+    let max_ops = ctx.n(200, 1000) as usize;
+    for v in VARIANTS {
+        let max_len = max_len_for(v, ctx);
+        ctx.prop(
+            &format!("progress/{}", v.name()),
+            ctx.n(3000, 50_000),
+            || {
+                // mostly no disconnects so that the liveness clause applies; a few with session ops
+                (prop::bool::weighted(0.1), history_strategy(max_len, max_ops, false), history_strategy(max_len, max_ops, true))
+                    .prop_map(|(s, a, b)| Case { ops: if s { b } else { a } })
+            },
+            |c: &Case| check(v, c, max_len),
+        );
+    }
+    // canonical probe: the largest accepted vital chunk is lost once and must be resent
+    ctx.probe("v7-resend-spin-largest-chunk", || {
+        let mut ops = handshake_prelude();
+        ops.push(Op::Send { side: 0, vital: true, len: 1390, fill: 3 });
+        ops.push(Op::Flush { side: 0 });
+        ops.push(Op::Drop { dir: 0, k: 0 });
+        run_case::<P7>(&ops, false, 1390).map(|_| ())
+    });
+}
+
+pub fn run(ctx: &Ctx) {
+    ctx.set_rule(
+        "adversarial prefix = C01-style history (sends of every accepted size incl. the largest, flush, tick, clock advance, \
+         deliver/drop/dup/reorder, bursts) then the harness-executed fair suffix (deliver all FIFO, tick at deadline, <= 40 rounds); \
+         non-trivial = the prefix hit a datagram carrying a vital chunk or a handshake message with a fault, so the suffix needs a \
+         retransmission, and the suffix ran; distinct by hash of the op list",
+    );
+    ctx.assume("bounded liveness under ONE fair scheduler (FIFO delivery, tick at the reported deadline); every callback burns fuel: a call that makes more than 50000 callback invocations is reported as non-terminating");
+    ctx.assume("0.7 acceptor state PendingConnect reports no deadline; measured, not asserted (the connector retransmits)");
+    run_all(ctx);
 }
